@@ -13,6 +13,7 @@ func init() {
 	register(&Property{
 		ID: "C05",
 		Explanation: "Decides: R05.1 'Lookup never panics' as bounds obligations over Router.Lookup, doubleArray.lookup, NextSeparator, Params.Get and the serve mux: every index/slice expression is discharged by a dominating comparison with the length of the same operand, by loop-counter induction, by the stated caller preconditions (checked at every in-repo call site), or by the reviewed invariant table (trie-shape invariants of build, printed in the evidence); the unguarded node/paramNames reads that really panic on paths containing the reserved bytes are KNOWN FINDINGS; " +
+			"Round 12: R05.5 a single-parameter edge is tried for every candidate record. " +
 			"R05.2 order independence, necessary part: records are sorted before siblings are arranged, every base handed out is reserved, parameter-free patterns go to the static map which Lookup consults first; R05.3 the mux only stores HandlerFunc values, so its type assertion cannot fail; " +
 			"R05.4 a single-segment parameter ends only at '/' or the termination byte; R05.5 backtracking tries, for every recorded candidate node, the single parameter and then the wildcard, and the candidate stack is never truncated during the literal walk; parameter names are filled from the matched node. " +
 			"R05.3 also: the serve mux looks up r.Method and the decoded r.URL.Path. " +
